@@ -4,6 +4,7 @@ import (
 	"bytes"
 	"fmt"
 	"runtime"
+	"strings"
 	"syscall"
 	"time"
 
@@ -196,6 +197,12 @@ type c05ctx struct {
 }
 
 func (c *c05ctx) judge(harness string, in []byte, cfg Cfg, nd bool, pj *simdjson.ParsedJson, err error, panicked string) {
+	c.judgeT(harness, in, cfg, nd, pj, err, panicked, true)
+}
+
+// judgeT: traverse=false only checks that the call returned exactly one of result/error
+// (the tape is the same under every config - C06 - so one traversal per input suffices).
+func (c *c05ctx) judgeT(harness string, in []byte, cfg Cfg, nd bool, pj *simdjson.ParsedJson, err error, panicked string, traverse bool) {
 	w := c.w
 	w.res.Validated++
 	bad, fp := "", ""
@@ -204,11 +211,15 @@ func (c *c05ctx) judge(harness string, in []byte, cfg Cfg, nd bool, pj *simdjson
 		bad, fp = "panic: "+panicked, "panic/"+panicClass(panicked)
 	case (pj == nil) == (err == nil):
 		bad, fp = "neither exactly an error nor exactly a result", "exclusive"
+	case pj != nil && !traverse:
+		w.Count("accepted", 1)
 	case pj != nil:
 		w.Count("accepted", 1)
+		t0 := time.Now()
 		if what := traverseAll(pj); what != "" {
 			bad, fp = what, "traverse"
 		}
+		w.Count("us_in_traversal_of_accepted_results_"+strings.SplitN(harness, "-", 3)[1], time.Since(t0).Microseconds())
 	default:
 		w.Count("rejected", 1)
 	}
@@ -243,7 +254,7 @@ func (c *c05ctx) run(in []byte, harness string, heavy bool) {
 	for i, cfg := range cfgs {
 		w.cur.Set(harness, cfg.String()+"/reuse", in)
 		pj, err, p := c.sess[i].parse(cfg, in, false)
-		c.judge(harness, in, cfg, false, pj, err, p)
+		c.judgeT(harness, in, cfg, false, pj, err, p, i == c.n%len(cfgs) || len(in) < 512)
 		if pj != nil && i == 0 {
 			w.Distinct(tapeHash(pj))
 		}
